@@ -72,7 +72,7 @@ MANIFEST = {
             "worker; end to end, tb_refinement emits the process metadata of a rank without host (or device) events "
             "under its default pid 0, so an export of e.g. the rank files {2,3} can contain pid-0 metadata events and "
             "then (rightly, by the property, which speaks about exported events) gets a worker 0 holding them - "
-            "counted in the distribution, not a C18 failure; '.json' is replaced everywhere in the output path; bool pids are not modelled.",
+            "counted in the distribution, not a C18 failure; bool pids are not modelled.",
     "technique": "Coq proof (induction over the event list / rank id list, insertion sort, permutation and NoDup "
                  "counting) + vm_compute correspondence against the real exporters and Acelyzer + brute-force oracle",
     "design_ref": "DESIGN.md section 4/C18, section 6 F4; known_findings 0f462ed",
